@@ -1925,3 +1925,32 @@ mod tests {
         assert!(r.is_empty());
     }
 }
+
+#[cfg(feature = "verif-hooks")]
+pub mod verif {
+    use super::*;
+
+    /// Raw dump of a two-column table (key column as text, value column as bytes), read
+    /// straight from sqlite. Used to list the name/uuid/spn/rdn tables, which have no lister.
+    pub(crate) fn raw_table<T: IdlSqliteTransaction>(
+        t: &T,
+        table: &str,
+        kcol: &str,
+        vcol: &str,
+    ) -> Result<Vec<(String, Vec<u8>)>, OperationError> {
+        let query = format!(
+            "SELECT {kcol}, CAST({vcol} AS BLOB) FROM {}.{table}",
+            t.get_db_name()
+        );
+        let conn = t.get_conn()?;
+        let mut stmt = conn.prepare(query.as_str()).map_err(sqlite_error)?;
+        let rows = stmt
+            .query_map([], |row| {
+                let k: String = row.get(0)?;
+                let v: Option<Vec<u8>> = row.get(1)?;
+                Ok((k, v.unwrap_or_default()))
+            })
+            .map_err(sqlite_error)?;
+        rows.map(|r| r.map_err(sqlite_error)).collect()
+    }
+}
